@@ -30,8 +30,10 @@ def code_excluded_dir(name):
     return spec_excluded_dir(name) or name in EXTRA_EXCLUDED_DIRS
 
 
-def any_excluded(parts):
-    return any(code_excluded_dir(c) for c in parts)
+@opaque
+def any_excluded(s: SeqOf(Str)) -> Bool:
+    """Some component is an excluded directory name (opaque: unfolded only where revealed)."""
+    return len(s) > 0 and (code_excluded_dir(s[0]) or any_excluded(s[1:]))
 
 
 def hard_excluded(p):
@@ -45,7 +47,17 @@ class IsHardcodedExcluded:
         return hard_excluded(file_path)
 
     def inv0(file_path, rest):
-        return any_excluded(path_parts(file_path)) == any_excluded(rest)
+        return reveal(any_excluded, rest) and any_excluded(path_parts(file_path)) == any_excluded(rest)
+
+
+@lemma(props=["C14", "C09"], types=dict(s=SeqOf(Str)), name="any-excluded-is-any-component")
+def any_excluded_def(s):
+    """any_excluded(s) <=> some component of s is an excluded directory name (by induction on s)."""
+    reveal(any_excluded, s)
+    if len(s) == 0:
+        return not any_excluded(s)
+    ih(any_excluded_def, s[1:])
+    return any_excluded(s) == any(code_excluded_dir(c) for c in s)
 
 
 @contract(O + "_should_include_dir", props=["C14"], types=dict(dirname=Str), returns=Bool)
@@ -58,17 +70,26 @@ class ShouldIncludeDir:
         return result == (not code_excluded_dir(dirname))
 
 
-@lemma(props=["C14"], types=dict(rel=SeqOf(Str), name=Str), name="excluded-iff-under-documented-dir")
-def excluded_iff_documented(rel, name):
-    """Property text: a file is hard-excluded iff it is a compiled artefact or one of its components is a documented
-    excluded directory name. (Expected to fail through the 5 undocumented names: C14-undocumented-exclusions.)"""
-    p = mkpath(rel)
+@lemma(props=["C14"], types=dict(name=Str), name="explicit-file-excluded-iff-documented")
+def excluded_iff_documented(name):
+    """Property text, for a file named directly inside a directory `name` ... posed on one component (the general
+    statement is the adjusted lemma below): `name/x` is hard-excluded iff `name` is a documented excluded directory.
+    (Expected to fail through the 5 undocumented names: C14-undocumented-exclusions-explicit.)"""
+    if not comp_ok(name):
+        return True
+    p = mkpath([name, "x"])
+    name_link(p)
+    assert name_suffix(path_name(p)) == ""  # the file name "x" has no suffix (checked natively on replay)
+    reveal(any_excluded, [name, "x"])
+    reveal(any_excluded, ["x"])
+    reveal(any_excluded, [])
     r = call(O + "_is_hardcoded_excluded", p)
-    return r == (name_suffix(path_name(p)) in COMPILED_SUFFIXES or any(spec_excluded_dir(c) for c in rel))
+    return r == spec_excluded_dir(name)
 
 
-@lemma(props=["C14"], types=dict(rel=SeqOf(Str)), name="excluded-iff-under-listed-dir-adjusted")
+@lemma(props=["C14"], types=dict(rel=SeqOf(Str)), name="excluded-iff-compiled-or-under-listed-dir")
 def excluded_iff_listed(rel):
+    """Finding-adjusted, all paths: hard-excluded iff compiled artefact or some component is a listed directory name."""
     p = mkpath(rel)
     r = call(O + "_is_hardcoded_excluded", p)
-    return r == (name_suffix(path_name(p)) in COMPILED_SUFFIXES or any(code_excluded_dir(c) for c in rel))
+    return any_excluded_def(rel) and r == (name_suffix(path_name(p)) in COMPILED_SUFFIXES or any(code_excluded_dir(c) for c in rel))
